@@ -669,9 +669,45 @@ impl<K: KeyT, const N: usize> SetSys<K, N> {
     pub fn build(&self, path: &[u32], cx: &mut Ctx) -> SBuilt<K, N> {
         pl::reset();
         let mut bx = Canary::boxed(if crate::mapsys::CTOR.load(std::sync::atomic::Ordering::Relaxed) == 0 { Set::<K, N>::new() } else { Set::<K, N>::default() });
+        // pre-history (see mapsys::prehistory): full, fully looked up, emptied again
+        let alive_before = pl::live_ids();
+        let mode = crate::mapsys::PREHIST.load(std::sync::atomic::Ordering::Relaxed);
+        if mode != 0 {
+            let s = &mut bx.c;
+            let fill = (N as u8).min(self.nk);
+            for k in 0..fill {
+                s.insert(K::mk(k, 0));
+            }
+            for k in (0..fill).chain((0..fill).rev()) {
+                K::with_q(k, |q| {
+                    let _ = s.contains(q);
+                    let _ = s.get(q);
+                });
+            }
+            match mode {
+                1 => drop(s.drain()),
+                2 => std::mem::forget(s.drain()),
+                3 => s.clear(),
+                4 => s.retain(|_| false),
+                5 => {
+                    for k in 0..fill {
+                        K::with_q(k, |q| {
+                            s.remove(q);
+                        });
+                    }
+                }
+                _ => {
+                    for k in (0..fill).rev() {
+                        K::with_q(k, |q| {
+                            let _ = s.take(q);
+                        });
+                    }
+                }
+            }
+        }
+        let mut leaked: Vec<u32> = pl::live_ids().into_iter().filter(|id| !alive_before.contains(id)).collect();
         let mut model = RefSet::new(N);
         let probes = self.probes();
-        let mut leaked = Vec::new();
         let was = cx.quiet;
         cx.quiet = true;
         for i in path {
